@@ -286,7 +286,11 @@ def tensor_attr(interp: Any, t: SymTensor, name: str) -> Any:
     if name in ("mup_type", "mup_scaling_depth", "__deepcopy__", "__reduce_ex__") or (name.startswith("_") and not name.startswith("__")):
         # python-level attributes that were never set on this tensor object
         raise PyRaise("AttributeError", f"'Tensor' object has no attribute '{name}'")
-    raise OutOfReach(f"Tensor.{name}")
+    if name.startswith("__"):
+        raise OutOfReach(f"Tensor.{name}")
+    # an UNMODELLED tensor method: unknown function of its arguments (generic fallback, see GenericTorch)
+    g = GenericTorch("Tensor." + name)
+    return Builtin("Tensor." + name, lambda it, a, k: g.pyvc_call(it, [t] + list(a), k))
 
 
 def tm_numel(interp: Any, args: List[Any], kwargs: Dict[str, Any]) -> Any:
@@ -670,7 +674,7 @@ def t_ones(interp: Any, args: List[Any], kwargs: Dict[str, Any]) -> Any:
         sh = Shape([sh])
     elif isinstance(sh, (tuple, list)):
         sh = Shape(list(sh))
-    t = SymTensor(sh, kwargs.get("dtype") or DTYPES["float32"], LinComb.const(1), None)
+    t = SymTensor(sh, kwargs["dtype"] if kwargs.get("dtype") is not None else DTYPES["float32"], LinComb.const(1), None)
     t.storage.__dict__["fill"] = "ones"
     return t
 
